@@ -11,6 +11,13 @@ from .. import codec as C
 from .. import sym
 from .common import unparse, call_name, local_defs
 
+CTL_NAME = "_sa_controls"
+
+
+def short_q(q):
+    return ".".join(q.split(".")[-2:])
+
+
 PATTERN = "reamber.algorithms.pattern.Pattern.Pattern"
 COMBO = "reamber.algorithms.pattern.combos.PtnCombo.PtnCombo"
 FILTERS = "reamber.algorithms.pattern.filters.PtnFilter"
@@ -478,6 +485,39 @@ def rule_r6(ctx) -> List[R.Inst]:
     return insts
 
 
+def rule_r7(ctx) -> List[R.Inst]:
+    """option flags of the templates: `A | B if c else 0` parses as `(A | B) if c else 0` — when it is written without parentheses
+    the unconditional flag A is silently dropped whenever c is false"""
+    M = ctx.M
+    rid = "C20.R7"
+    insts = []
+    n_opts = 0
+    for q, fn in sorted(M.funcs.items()):
+        if not q.startswith("reamber.algorithms.pattern.") or CTL_NAME in q:
+            continue
+        for n in walk_no_nested(fn.node):
+            if isinstance(n, ast.keyword) and n.arg == "options":
+                n_opts += 1
+                v = n.value
+                if isinstance(v, ast.IfExp) and isinstance(v.body, ast.BinOp) and isinstance(v.body.op, ast.BitOr) and \
+                        isinstance(v.orelse, ast.Constant) and v.orelse.value in (0, None):
+                    # a parenthesised body starts after the conditional expression does: `(A | B) if c else 0`
+                    paren = (v.lineno, v.col_offset) != (v.body.lineno, v.body.col_offset)
+                    key = f"{short_q(q)}:options"
+                    if paren:
+                        insts.append(R.ok(rid, key, M.mods[fn.mod].rel, v.lineno, idiom="(flags) if cond else 0, parenthesised on purpose"))
+                    else:
+                        flags = unparse(v.body.left)
+                        insts.append(R.viol(rid, key, M.mods[fn.mod].rel, v.lineno,
+                                            f"'{unparse(v)[:110]}' is '({unparse(v.body)[:70]}) if {unparse(v.test)} else 0': when '{unparse(v.test)}' is "
+                                            f"false NO option is set, although '{flags.split('.')[-1]}' is written as unconditional — sequences that "
+                                            f"only match in the other order are missing from the result",
+                                            construct=f"{short_q(q)}: {unparse(v)[:120]}"))
+    if not insts:
+        insts.append(R.ok(rid, "options", "", 0, idiom=f"{n_opts} options= arguments: no conditional swallowing an unconditional flag"))
+    return insts
+
+
 def rule_dep(ctx):
     """obligations inherited from shared code reached through the call graph (sa/props/deps.py)"""
     from .deps import dep_insts
@@ -491,6 +531,7 @@ SPECS = [
     RuleSpec("C20.R5", rule_r5, 5, "A7", "REPEAT option: shift range computed per base combo"),
     RuleSpec("C20.R4", rule_r4, 7, "A7", "chord filter tests row membership; exclude = negation; option flags distinct bits"),
     RuleSpec("C20.R6", rule_r6, 2, "M0", "the type filter is issubclass, so the tags assigned by the pattern (note classes, HoldTail) are unrelated classes"),
+    RuleSpec("C20.R7", rule_r7, 1, "A7", "template option flags: no conditional expression swallowing an unconditional flag"),
     RuleSpec("C20.D", rule_dep, 1, "M0", "rules of the shared code (timing engine, list classes, stacker) that the operations of this property reach"),
 ]
 
